@@ -1,5 +1,5 @@
 """C09 - stopping requests take effect at the very evaluation that triggers them."""
-from .. import alpha, e1, e1prop, oracles
+from .. import alpha, ctrl, e1, e1prop, oracles
 
 ID = "C09"
 LEVEL = "fault_enumeration"
@@ -52,6 +52,7 @@ def roots(tier, seed):
                                                    callback={"sig": "xk", "behav": "passive"})
                         case["explore"] = 0
                         out.append(case)
+    out += ctrl.roots(tier, deep=False)
     return alpha.permute(out, seed)
 
 
@@ -110,15 +111,22 @@ def _post(base, recs, stats):
 
 
 def run_case(case):
+    if case.get("stub"):
+        return e1prop.run_case_generic(case, oracles.c09, menu=ctrl.menu, horizon=ctrl.horizon,
+                                       extra_stats=ctrl.stats)
     return e1prop.run_case_generic(case, oracles.c09, post=_post)
 
 
 def coverage(agg, tier, roots_):
-    need = ["triggered_runs", "trig_status_1", "trig_status_3", "trig_status_4"]
+    need = ["triggered_runs", "trig_status_1", "trig_status_3", "trig_status_4", "ctrl_runs", "ctrl_status_1",
+            "ctrl_status_3", "ctrl_status_4"]
     for req in ("cb", "target", "feas"):
         for kind in ("init", "tr", "soc", "geo"):
             need.append(f"cover_{req}_{kind}")
     cov, herr = e1prop.coverage_generic(agg, tier, roots_, RULE, need=need, dev_bound=1)
+    cov["control_skeleton"] = {"executions": int(agg.stats.get("ctrl_runs", 0)),
+                               "choice_points": int(agg.stats.get("ctrl_choice_points", 0)),
+                               "deviation_bound": 1 if tier == "quick" else 2}
     cov["evaluations"] = int(agg.stats.get("runs", 0))
     cov["distinct_nontrivial"] = int(agg.stats.get("triggered_runs", 0))
     cov["rule"] += " distinct_nontrivial counts triggered runs (each has a distinct (root, index, request))."
